@@ -102,7 +102,14 @@ func (p *PacketProcessor) ProcessPacketData(data []byte, _ *gopacket.CaptureInfo
 }
 
 func validPacket(decoded []gopacket.LayerType) bool {
-	return len(decoded) == 3 || (len(decoded) == 2 && decoded[0] == layers.LayerTypeIPv4)
+	switch len(decoded) {
+	case 3:
+		return decoded[0] == layers.LayerTypeEthernet &&
+			decoded[1] == layers.LayerTypeIPv4 && decoded[2] == layers.LayerTypeICMPv4
+	case 2:
+		return decoded[0] == layers.LayerTypeIPv4 && decoded[1] == layers.LayerTypeICMPv4
+	}
+	return false
 }
 
 type PacketFiller struct {
